@@ -80,8 +80,8 @@ def _tree(task):
     acc = FW.Acc()
     acc.n("trees")
     d = S.depth(spec)
-    n = 3 if tier == "quick" else (4 if d <= 2 else 3)
-    cap = 4 if tier == "quick" or d == 3 else 5
+    n = (3 if d <= 2 else 2) if tier == "quick" else (4 if d <= 2 else 3)
+    cap = 4 if tier == "quick" or d >= 3 else 5
     recs = A.records(spec, "core", cap=cap)
     evs = [(r, 1.0) for r in recs]
     nodes = failing_nodes(spec)
@@ -113,6 +113,8 @@ def _tree(task):
 
 def trees(tier):
     t = [s for s in S.SP(2 if tier == "quick" else 3) if "q" in s or S.depth(s) > 1]
+    fan = ("Label", "UntypedLabel", "Index", "Branch", "Fraction", "Stack")
+    t += [x for x in S.DX() if not any(n["t"] in fan for _, _, n in S.node_ids(x))]
     seen, out = set(), []
     for s in t:
         k = S.key(s)
